@@ -21,6 +21,7 @@ def attr_cases():
             enc = "tls" if url == "wss" else "none"
             out.append({"cfg": {"kind": "wsattr", "k": 0, "url": url, "tlscfg": tlscfg},
                         "obs": [{"op": "attr", "side": url, "res": "cli:%s,srv:%s" % (enc, enc), "v": 0}]})
+    out.append({"cfg": {"kind": "wsclose", "k": 0}, "obs": [{"op": "attr", "side": "wsclose", "res": "closed", "v": 0}]})
     return out
 
 
